@@ -14,7 +14,9 @@ sortPlugins through the `verif` hook on every registration order of nested / equ
 and on random shuffles of the real table with overrides; dispatch. T2 — generated packages (2..5 struct
 types needing helpers, 3..8 derive calls of 8 plugins) run through the real binary under the default
 prefixes and as consistently renamed copies under -prefix (4 values) and -pluginprefix (prefix-free,
-nested: every prefix a proper prefix of the next, and combined with -prefix): derived.gen.go must be
+nested: every prefix a proper prefix of the next, combined with -prefix, and combined with -prefix where
+the override VALUES contain "derive" or the global prefix and must be taken verbatim) plus a nested
+stream (equal=gen,hash=genHash,sort=genS,set=genSet and random chains): derived.gen.go must be
 textually equal after the renaming for a global prefix and equal function-for-function (keyed by
 signature, names of derived functions abstracted) for per-plugin overrides; every output is
 type-checked; a capture stream (equal=eq, hash=eqH, compare=eqHa with call names that decide the
@@ -61,6 +63,41 @@ def facts(rep):
         rep.violation("T4 fact changed: the -pluginprefix override in main.go is no longer `if override { pluginprefix = newprefix }`",
                       {"fact": "override_site"}, False)
     rep.cov["t4"]["facts_checked"] = n
+
+
+def effective_prefixes(rep, cases):
+    """The plugin table the generator assumed for every (-prefix, -pluginprefix) combination in play
+    (names.Plugins, a transcription of main.go) against the Lean model's effectivePrefix + sortPlugins."""
+    import subprocess
+    seen = {}
+    for c in cases.values():
+        args = tuple(c.get("goderive_args") or [])
+        if args in seen:
+            continue
+        p, ov = "derive", []
+        for a in args:
+            if a.startswith("-prefix="):
+                p = a.split("=", 1)[1]
+            elif a.startswith("-pluginprefix="):
+                ov = [x.split("=") for x in a.split("=", 1)[1].split(",")]
+        seen[args] = (p, ov, {pl["name"]: pl["prefix"] for pl in c["plugins"]})
+    lines = []
+    keys = list(seen)
+    for i, k in enumerate(keys):
+        p, ov, _ = seen[k]
+        lines.append("op %d effprefixes %s (ov%s)" % (i, names.esc(p), "".join(" (%s %s)" % (names.esc(a), names.esc(b)) for a, b in ov)))
+    pm = subprocess.run([common.driver_path()], input="\n".join(lines) + "\n", stdout=subprocess.PIPE, text=True)
+    outs = pm.stdout.strip().split("\n")
+    bad = 0
+    for k, o in zip(keys, outs):
+        model = dict(x.split("=") for x in o.split("model=", 1)[1].split(","))
+        want = {names.esc(n): names.esc(v) for n, v in seen[k][2].items()}
+        if model != want:
+            bad += 1
+            diff = {n: (want.get(n), model.get(n)) for n in want if want.get(n) != model.get(n)}
+            rep.violation("effective prefixes for `%s`: generator (transcription of main.go) and Lean effectivePrefix differ: %s" % (" ".join(k), diff),
+                          {"fact": "effectivePrefix", "args": list(k), "diff": {n: list(v) for n, v in diff.items()}}, False)
+    rep.cov["t4"]["prefix_maps_checked_against_effectivePrefix"] = len(keys)
 
 
 def rho_text(text, p):
@@ -134,7 +171,8 @@ def run(rep):
         elif corr:
             problems.append(("corr", corr, case, variant, obs, line))
 
-    n, stats, _ = names.t2(rep, "C12", handle)
+    n, stats, allcases = names.t2(rep, "C12", handle)
+    effective_prefixes(rep, allcases)
     for g, members in groups.items():
         stat["groups"] += 1
         base = [m for m in members if m[0]["rename"] == "default"]
